@@ -323,7 +323,18 @@ pub fn gen_c19(rng: &mut Rng, thorough: bool) -> History {
         let op = match rng.below(12) {
             0 | 1 => Op::Poke32 { idx: rng.usize(npx.max(1)), val: if rng.chance(1, 2) { valid_pixel(rng) } else { rng.next_u32() } },
             2 | 3 => Op::Poke8 { idx: rng.usize((npx * 4).max(1)), val: rng.below(256) as u8 },
-            4 => Op::ReadViews,
+            4 => {
+                // the views address the surface itself, also while a layer is open
+                if w > 0 && h > 0 && rng.chance(1, 3) {
+                    if em.shadows[0].layer_depth() == 0 {
+                        Op::PushLayer { opacity: F(rng.unit()), blend: BLEND_SRC_OVER, plain: true }
+                    } else {
+                        Op::PopLayer
+                    }
+                } else {
+                    Op::ReadViews
+                }
+            }
             5 | 6 => Op::Restart(rng.below(6) as u8),
             7 => {
                 // the packing claim is for all component values, premultiplied or not
@@ -356,6 +367,7 @@ pub fn gen_c19(rng: &mut Rng, thorough: bool) -> History {
         };
         em.push(0, op);
     }
+    em.close_all();
     let variant = if thorough && faults && npx <= 64 && rng.chance(1, 20) { V19_ENUMERATE_OFFSETS } else { 0 };
     em.finish(0, variant, 2_000_000_000, format!("c19 faults={}", faults))
 }
@@ -504,6 +516,9 @@ pub fn run_c19(h: &History, io_dir: &str, st: &mut Stats) -> Outcome {
                 }
                 checks += 1;
             }
+            Op::Restart(_) if p.shadows[0].layer_depth() > 0 => {
+                // not possible while a layer is open (its buffer cannot be carried over): skipped
+            }
             Op::Restart(kind) => {
                 st.count("perturbation.restart");
                 let handed_back = p.last_restart_buf.take();
@@ -525,6 +540,12 @@ pub fn run_c19(h: &History, io_dir: &str, st: &mut Stats) -> Outcome {
                     }
                 }
                 checks += 1;
+            }
+            Op::Clear { .. } if p.shadows[0].layer_depth() > 0 => {
+                // goes into the open layer: the surface itself must not change
+                if let Some(d) = first_diff(p.surfs[0].pixels(), &model, w) {
+                    return viol("c19.word-view", i, format!("clear() while a layer is open changed the surface: {}", d));
+                }
             }
             Op::Clear { argb } => {
                 let c = ((argb[0] as u32) << 24) | ((argb[1] as u32) << 16) | ((argb[2] as u32) << 8) | argb[3] as u32;
@@ -666,7 +687,12 @@ fn c07_path(rng: &mut Rng, w: i32, h: i32, identity: bool) -> PathSpec {
             6 | 7 => {
                 // coincident control points now and then, or control points a few ulps away from
                 // an end point (the extremum of the curve then lies within rounding noise of it)
-                let ulps = |v: f32, k: i32| f32::from_bits((v.to_bits() as i64 + k as i64).max(0) as u32);
+                // k units in the last place away, staying finite and on the same side of zero
+                let ulps = |v: f32, k: i32| {
+                    let b = v.to_bits();
+                    let mag = ((b & 0x7fff_ffff) as i64 + k as i64).max(0).min(0x7f7f_ffff);
+                    f32::from_bits((b & 0x8000_0000) | mag as u32)
+                };
                 let c = match rng.below(6) {
                     0 | 1 => last,
                     2 => (ulps(p.0, rng.range(-3, 3)), ulps(p.1, rng.range(-3, 3))),
@@ -833,7 +859,11 @@ pub fn gen_c07(rng: &mut Rng, thorough: bool) -> History {
                 if open == 0 {
                     continue;
                 }
-                em.close_one(si);
+                if rng.chance(1, 3) {
+                    em.any_pop(rng, si);
+                } else {
+                    em.close_one(si);
+                }
                 continue;
             }
             6 => {
@@ -905,7 +935,37 @@ pub fn gen_c07(rng: &mut Rng, thorough: bool) -> History {
     em.finish(0, 0, 2_000_000_000, "c07".to_string())
 }
 
+/// Last line of defence against generator mistakes: coordinates must be finite and inside the
+/// working range the statement gives (a NaN coordinate is *outside* C07's domain; reporting what
+/// happens there would be a false alarm). Such a history is skipped and counted.
+fn c07_in_domain(h: &History) -> bool {
+    let ok = |v: f32| v.is_finite() && v.abs() <= 4000.;
+    let path_ok = |p: &PathSpec| {
+        p.segs.iter().all(|s| match s {
+            Seg::M(x, y) | Seg::L(x, y) => ok(x.0) && ok(y.0),
+            Seg::Q(a, b, c, d) => ok(a.0) && ok(b.0) && ok(c.0) && ok(d.0),
+            Seg::C(a, b, c, d, e, g) => ok(a.0) && ok(b.0) && ok(c.0) && ok(d.0) && ok(e.0) && ok(g.0),
+            Seg::Z => true,
+            Seg::Arc(x, y, r, a0, sw) => ok(x.0) && ok(y.0) && ok(r.0) && a0.0.is_finite() && sw.0.is_finite(),
+            Seg::Rect(x, y, w, hh) => ok(x.0) && ok(y.0) && ok(x.0 + w.0) && ok(y.0 + hh.0),
+        })
+    };
+    h.steps.iter().all(|s| match &s.op {
+        Op::Fill { path, .. } | Op::PushClip(path) | Op::PathQuery { path, .. } => path_ok(path),
+        Op::Stroke { path, style, .. } => path_ok(path) && style.dash_array.iter().all(|d| !d.0.is_infinite()),
+        Op::FillRect { rect, .. } => ok(rect[0].0) && ok(rect[1].0) && ok(rect[0].0 + rect[2].0) && ok(rect[1].0 + rect[3].0),
+        Op::SetTransform(m) => m.iter().all(|v| v.0.is_finite()),
+        Op::DrawImageAt { x, y, .. } => ok(x.0) && ok(y.0),
+        Op::DrawImageSized { w, h: hh, x, y, .. } => ok(x.0) && ok(y.0) && ok(w.0) && ok(hh.0),
+        _ => true,
+    })
+}
+
 pub fn run_c07(h: &History, st: &mut Stats) -> Outcome {
+    if !c07_in_domain(h) {
+        st.count("skipped_generator_left_the_stated_domain");
+        return Outcome::Ok;
+    }
     raqote::verif::set_buggify(0);
     let mut p = World::new(&h.surfaces);
     let budget = h.tick_budget;
